@@ -223,14 +223,16 @@ fn record_frags(rng: &mut Rng, t: usize, c: usize) -> Vec<String> {
 impl Scenario {
     fn generate(seed: u64, idx: u64) -> Scenario {
         let mut rng = Rng::new(run_seed(seed, 0xC19, idx));
-        let nthreads = rng.range(2, 4);
+        // mostly 2-4 threads; now and then a crowd (each with a single short call)
+        let crowd = rng.chance(1, 12);
+        let nthreads = if crowd { rng.range(5, 8) } else { rng.range(2, 4) };
         let mode = rng.below(5) as u8;
         let with_globals = rng.chance(1, 3);
         let mut threads = Vec::new();
         let mut handle_per_call = Vec::new();
         let mut locked_group = Vec::new();
         for t in 0..nthreads {
-            let ncalls = rng.range(1, 4);
+            let ncalls = if crowd { rng.range(1, 2) } else { rng.range(1, 4) };
             let mut calls = Vec::new();
             for c in 0..ncalls {
                 if with_globals && rng.chance(1, 3) {
